@@ -581,6 +581,8 @@ def d_unwrap(cx, bi, t):
         return None
     if re.search(r"io::Write::write_fmt$", oc) and "<std::vec::Vec<u8> as std::io::Write>" in ofull:
         return ("infallible-writer", "io::Write for Vec<u8> never fails")
+    if re.search(r"fmt::Write::write_fmt$", oc) and "<std::string::String as std::fmt::Write>" in ofull:
+        return ("infallible-writer", "fmt::Write for String never fails")
     if re.search(r"Builder::build$", oc) and ot.get("resolved_local"):
         return d_builder(cx, bi, od[1])
     if re.search(r"from_utf8$", oc):
@@ -835,7 +837,7 @@ def d_panic_call(cx, bi, t):
     b = cx.b
     # assert!(!v.is_empty()) where element 0 of a collected split is never removed
     for a, s, cnd, truth in guard_conditions(b, bi):
-        if cnd["kind"] == "call" and re.search(r"Vec::<T, A>::is_empty$", cnd["callee"]) and truth is True:
+        if cnd["kind"] == "call" and re.search(r"Vec::<T, A>::is_empty$|slice::<impl \[T\]>::is_empty$", cnd["callee"]) and truth is True:
             v = root_local(b, cnd["term"]["args"][0])
             pts = b.pointees().get(op_local(cnd["term"]["args"][0]), set())
             for vl in ([v] + sorted(pts)):
